@@ -1,8 +1,8 @@
 (* Properties_C03.v — theorem statements for C03 (electrostatic solution satisfies the discrete
    field equations and Gauss's law).  Model: AsmE.v (ESolver::AnalyzeProblem).  Proofs:
-   AsmOpsProofs.v, AsmEProofs.v, AsmEFinish.v.  Real-number reading. *)
+   AsmOpsProofs.v, AsmEProofs.v, AsmEFinish.v, AsmEPoints.v.  Real-number reading. *)
 From Coq Require Import ZArith List Bool Arith Lia Reals Lra.
-From XF Require Import Arith Sparse SparseProofs AsmOps AsmOpsProofs AsmE AsmEProofs AsmEFinish.
+From XF Require Import Arith Sparse SparseProofs AsmOps AsmOpsProofs AsmE AsmEProofs AsmEFinish AsmEPoints.
 Import ListNotations.
 Local Open Scope R_scope.
 
@@ -180,3 +180,39 @@ Proof.
       apply mget_mput_same; [apply mcreate_ok| rewrite mcreate_length; lia ..]. }
     rewrite H0, H1. lra.
 Qed.
+
+(* 8. Point charges (the loop over all nodes after the element loop): row i of the right-hand side
+      receives exactly the load of node i's point property,
+          1e6 * Depth_i * c * qp     with  Depth_i = 2 pi r_i (axisymmetric) | Depth (planar),
+      when the node is still marked free (flag -2) — for every node list, every flag list — and no
+      other row changes; rows of the conductor unknowns are untouched; a node that is prescribed
+      or tied to a conductor receives no point load. *)
+Theorem C03_point_charge_rows :
+  forall (P : eprob (F:=R)) (Depth : R) (b : list R) (Q : list Z),
+  (length (nodes P) <= length b)%nat ->
+  let '(D', b', Q') := point_charges RA P Depth b Q in
+  length b' = length b /\
+  forall i, vget RA b' i = vget RA b i + point_load P Depth Q i.
+Proof. exact point_charges_rows. Qed.
+Print Assumptions C03_point_charge_rows.
+
+Theorem C03_point_charge_leaves_conductor_rows :
+  forall (P : eprob (F:=R)) (Depth : R) (b : list R) (Q : list Z) (i : nat),
+  (length (nodes P) <= length b)%nat -> (length (nodes P) <= i)%nat ->
+  let '(D', b', Q') := point_charges RA P Depth b Q in vget RA b' i = vget RA b i.
+Proof. exact point_charges_other_rows. Qed.
+Print Assumptions C03_point_charge_leaves_conductor_rows.
+
+Theorem C03_point_charge_only_on_free_nodes :
+  forall (P : eprob (F:=R)) (Depth : R) (Q : list Z) (i : nat),
+  nth i Q 0%Z <> (-2)%Z -> point_load P Depth Q i = 0.
+Proof. exact point_load_only_on_free_nodes. Qed.
+Print Assumptions C03_point_charge_only_on_free_nodes.
+
+(* non-vacuity of 8: a planar two-node problem whose second node carries a point charge of 3 *)
+Example C03_point_charge_example :
+  let P := mkEProb false 1 1%nat 0 0 0 1
+             [mkENode 0 0 None None; mkENode 1 0 (Some 0%nat) None] [] [] []
+             [mkEPoint 0 3] [] [] [] in
+  point_load P 2 [(-2)%Z; (-2)%Z] 1 = 1000000 * 2 * cconst RA P * 3.
+Proof. cbn zeta. unfold point_load, depth_at. cbn. lra. Qed.
